@@ -3,6 +3,7 @@ CONSTANTS
   Callers = {"c1", "c2"}
   Cancellers = {"k1"}
   Periodic = FALSE
+  DeleteByName = FALSE
   DropOnClaim = FALSE
   MaxRuns = 1
   ScenLen = 16
